@@ -155,3 +155,29 @@ def tsubseq(stmts: list[ast.stmt], templates: list[str]) -> dict | None:
                     return r
         return None
     return rec(0, 0, {})
+
+
+def tall(root, templates: list[str], env: dict | None = None) -> dict | None:
+    """every template matches some sub-node of root, under ONE consistent binding (backtracking); order free"""
+    ts = [T(t) if isinstance(t, str) else t for t in templates]
+
+    def rec(i, e):
+        if i == len(ts):
+            return e
+        for _, e2 in tfind(root, ts[i], e):
+            r = rec(i + 1, e2)
+            if r is not None:
+                return r
+        return None
+    return rec(0, dict(env or {}))
+
+
+def tfirst_missing(root, templates: list[str], env: dict | None = None) -> str | None:
+    """for diagnostics: the first template that cannot be matched given the bindings of the earlier ones"""
+    e = dict(env or {})
+    for t in templates:
+        r = tall(root, [t], e)
+        if r is None:
+            return t
+        e = r
+    return None
